@@ -1060,7 +1060,11 @@ def _gen_resolve(rng):
     """extras whose annotations sort before / after the basic scheme of their version, versions with
     and without a basic scheme; then lookups by version alone, annotation alone, pair, through
     find_scheme_class / find_scheme / MafHeader.scheme()"""
-    cols = lambda k: [["r%d" % i, rng.choice(["StringColumn", "IntegerColumn", "NullableStringColumn"])] for i in range(k)]
+    cnt = [0]
+
+    def cols(k):
+        cnt[0] += 1          # own column names per definition: no accidental redefinitions
+        return [["r%d_%d" % (cnt[0], i), rng.choice(["StringColumn", "IntegerColumn", "NullableStringColumn"])] for i in range(k)]
     mk = lambda v, a, ext="None": {"version": v, "annotation-spec": a, "extends": ext, "columns": cols(rng.randint(1, 3)), "filtered": "None"}
     defs = []
     pick = rng.sample(range(6), rng.choice([1, 2, 2, 3]))
